@@ -1612,7 +1612,7 @@ fn mutate_bp(
             let k = numbers.iter().position(|x| *x == n)?;
             // right behind the real block, or behind other headers (the MMR library sorts the
             // leaves before it drops all but one per position: the two need not be neighbours)
-            let at = if numbers.len() >= 2 && (n + hashes.len() as u64 + rng.below(2)) % 2 == 0 { parts.headers.len() } else { k + 1 };
+            let at = if numbers.len() >= 2 && (n + hashes.len() as u64) % 2 == 0 { parts.headers.len() } else { k + 1 };
             parts.headers.insert(at, fh.data());
             let u = parts.uncles_hashes[k].clone();
             parts.uncles_hashes.insert(at, u);
